@@ -130,7 +130,10 @@ Definition spec_ok (c : call) (o : outcome) : bool :=
   | CMulti X ms sp start =>
       if valid_t X && forallb (motif_ok X) ms && (0 <? length ms)%nat
          && (length sp =? length ms - 1)%nat
-         && forallb (fun l => (0 <=? l) && (l <? Z.of_nat (tL X))) sp then
+         && forallb (fun l => 0 <=? l) sp then
+        (* a spacing >= L needs no clause of its own: it pushes the next placement past the
+           end, so the span test below already demands the rejection.  Negative spacings
+           ("before the previous one ends") are outside the text: silent. *)
         let n := sumZ sp + sumZ (map (fun m => Z.of_nat (tL m)) ms) in
         let p := start_of (Z.of_nat (tL X) / 2 - n / 2) start in
         let ps := positions ms sp p in
